@@ -74,6 +74,9 @@ REJECTED = ["x = 1 < 2 < 3", "x = - - 1", "x = not not true" if False else "x = 
             "x = 7 % 0", "x = 1 and true", "x = 'a' < 1", "x = {'a': 1}['b']", "if 1\nendif", "x = true + true"]
 
 
+# nested ternaries are rejected wherever the inner one sits (condition, true branch, false branch, chains, inside brackets of a branch)
+REJECTED += ["x = false ? 1 : true ? 2 : 3", "x = true ? 1 : false ? 2 : 3", "x = false ? 1 : false ? 2 : true ? 3 : 4", "x = (true ? true : false) ? 1 : 2" if False else "x = true ? (false ? 1 : 2) : 3",
+             "x = true ? 1 : (false ? 2 : 3)", "x = [true ? 1 : false ? 2 : 3]", "message(false ? 'a' : true ? 'b' : 'c')"]
 # no implicit conversion in the logical operators, in any operand position that is evaluated, whatever the result is used for
 NONBOOL = ['1', "'abc'", '[]', "{'k': 1}", '[true]']
 for _v in NONBOOL:
